@@ -539,7 +539,7 @@ func TestC14Regression(t *testing.T) {
 	bn := fakebn.New()
 	ctx := context.Background()
 	// (1) builder registration whose version field is not v1 (reaches the eth2 verifier's MessageRoot)
-	regKind := valgen.Kinds[10]
+	regKind := valgen.KindByName("VersionedSignedValidatorRegistration")
 	ptr := valgen.GenPtr(t, regKind, 1)
 	wire, _ := encode(reflect.ValueOf(ptr).Elem().Interface(), ptr)
 	for pos := 0; pos < len(wire) && pos < 24; pos++ {
